@@ -49,6 +49,7 @@ func schedCoverage(a *schedAgg, wall float64, conc bool) map[string]interface{} 
 		faults["caller_side_mutation"] = a.Mutates
 		faults["forced_gc"] = a.GCs
 	}
+	cov["in_process_workers_aged_before_exploring"] = a.Aged
 	cov["fault_kinds_fired"] = faults
 	return cov
 }
